@@ -6,6 +6,9 @@ the type's MAX and +inf.  The verdict must be: InvalidInput for the empty vector
 MAX/len; InsufficientNonZero when all weights are zero; otherwise none of the three errors and Ok among the outcomes.
 Not decided: exactness of the alias table, weights() reconstruction, sampling frequencies (numerical / data-structure invariants).
 """
+CONFIGS_THOROUGH = ["serde"]
+ALL_WEIGHTS_THOROUGH = True
+
 import rules_c04
 import values as V
 from absint import Interp, Vc, usize
@@ -32,6 +35,13 @@ def cells_for(t, n):
     mx = full.hi
     per = mx // n if n else mx
     mk = lambda a, b: In(a, b, t["bits"], t["signed"])  # noqa: E731
+    if n > mx:
+        # the length itself is not representable in W: MAX/len is 0, so every non-zero weight is too large and only all-zero vectors
+        # remain (documented as InsufficientNonZero)
+        out = [("0", mk(0, 0), "zero"), ("1", mk(1, 1), "bad"), ("MAX", mk(mx, mx), "bad")]
+        if t["signed"]:
+            out.append(("neg", mk(full.lo, -1), "bad"))
+        return out
     out = [("0", mk(0, 0), "zero"), ("small", mk(1, min(5, per)), "ok"), ("MAX/len", mk(per, per), "ok"),
            ("MAX", mk(mx, mx), "ok" if n <= 1 else "bad")]
     if n > 1:
@@ -46,11 +56,11 @@ def run(chk, F, tier):
                     "homogeneous vectors stand for their order class; mixtures are covered by `all` being evaluated on a summary element"]
     ax = Axioms(F)
     insts = [i for i in F.instances if i.get("full") and i["path"] == NEW]
-    chk.floor("instances of WeightedAliasIndex::new", len(insts), 3)
+    chk.floor("instances of WeightedAliasIndex::new", len(insts), 4)
     n = 0
     for inst in insts:
         w = F.types[inst["targs"][0]]
-        for ln in (0, 1, 3, 7):
+        for ln in (0, 1, 3, 7, 300):
             for cname, val, cls in cells_for(w, ln):
                 ip = Interp(F, ax)
                 rv, st = ip.run_root(inst, [Vc(val, usize(ln))])
